@@ -203,6 +203,10 @@ class ModelRegistry:
             return r
         if isinstance(v, (EnumeratedSeq, RangeSeq)):
             return v
+        if isinstance(v, ClsRef) and isinstance(v.info, ClassInfo) and it.is_enum_class(v.info):
+            used(it, 'enum.Enum: iterating the class yields its members in definition order')
+            return tuple(EnumMember(v.info.name, name, expr.value) for name, expr in v.info.attrs.items()
+                         if isinstance(expr, ast.Constant))
         return None
 
     def to_str(self, it, v):
